@@ -208,6 +208,9 @@ def range_ports(
     :param platform: Platform: "asa", "ios", "nxos". Default "ios".
     :type platform: str
 
+    :param version: Software version, default is "0".
+    :type version: str
+
     :param port_nr: Well-known TCP/UDP ports as numbers.
         True  - all tcp/udp ports as numbers,
         False - well-known tcp/udp ports as names (default).
@@ -231,14 +234,16 @@ def range_ports(
                                     "permit tcp any eq www any"]
     """
     platform = h.init_platform(platform=platform)
+    version = str(kwargs.get("version") or "")
     port_count = int(h.init_number(port_count or 1))
-    _check_operator_eq_range(line, platform, port_range)
+    _check_operator_eq_range(line, platform, port_range, version)
 
     aces_: LAce = []  # result
 
     params = {
         "line": line,
         "platform": platform,
+        "version": version,
         "port_nr": port_nr,
         "port_count": port_count,
         "port_range": port_range,
@@ -284,13 +289,16 @@ def range_protocols(**kwargs) -> LStr:
     range_ = str(kwargs.get("protocols") or "")
     line = str(kwargs.get("line") or "permit ip any any")
     platform = h.init_platform(**kwargs)
+    version = str(kwargs.get("version") or "")
     protocol_nr = bool(kwargs.get("protocol_nr"))
 
     aces_: LAce = []  # result
     protocols: LInt = netports.iip(range_)
     for proto in protocols:
-        ace_o = Ace(line, platform=platform, protocol_nr=protocol_nr)
-        ace_o._protocol = Protocol(str(proto), platform=platform, protocol_nr=protocol_nr)
+        ace_o = Ace(line, platform=platform, version=version, protocol_nr=protocol_nr)
+        ace_o._protocol = Protocol(
+            str(proto), platform=platform, version=version, protocol_nr=protocol_nr
+        )
         ace_o.platform = platform
         aces_.append(ace_o)
     return [o.line for o in aces_]
@@ -346,16 +354,18 @@ def _check_addgr(ace_o, addgrs, address_o, parser) -> bool:
     return True
 
 
-def _check_operator_eq_range(line: str, platform: str, port_range: bool) -> None:
+def _check_operator_eq_range(line: str, platform: str, port_range: bool, version: str = "") -> None:
     """Check if the operator is one of allowed: "eq", "neq", "range".
 
     :param line: ACE line with interested match-operators to check.
 
     :param platform: Platform
 
+    :param version: Software version.
+
     :return: None. Raise a ValueError if the operator is invalid.
     """
-    ace_o = Ace(line, platform=platform)
+    ace_o = Ace(line, platform=platform, version=version)
     operators = [ace_o.srcport.operator, ace_o.dstport.operator]
     operators = [s for s in operators if s]
 
@@ -435,6 +445,7 @@ def _range__port(
         port_nr: bool,
         port_count: int,
         port_range: bool,
+        version: str = "",
 ) -> LAce:
     """Generate range of TCP/UDP ports with match-operator.
 
@@ -473,7 +484,7 @@ def _range__port(
     for ports_ in ports_for_ace:
         port = " ".join([f"{i}" for i in ports_])
 
-        ace_o = Ace(line, platform=platform, port_nr=port_nr)
+        ace_o = Ace(line, platform=platform, version=version, port_nr=port_nr)
         ace_o.protocol.has_port = True
 
         # operator
@@ -489,6 +500,7 @@ def _range__port(
         port_o = Port(
             line=f"{operator} {port}",
             platform=ace_o.platform,
+            version=ace_o.version,
             protocol=ace_o.protocol.name,
             port_nr=ace_o.port_nr,
         )
